@@ -7,7 +7,7 @@ package edf
 // C16: zero-annotation safety sweep over the leaf decoders (every index and slice expression in
 // bounds in its own integer type, no nil dereference, no failed type assertion, no division by zero),
 // bit-precise.
-//@ sweep decode[A-Z]* props C16 except decodeType* decodeAny decodeError requires state != nil
+//@ sweep decode[A-Z]* props C16 C11 except decodeType* decodeAny decodeError requires state != nil
 
 // The atom cache and the atom mapping negotiated by the handshake hold atoms only (A-CACHE: built
 // by makeDecodeAtomCache / the registration API; not verified here).
